@@ -275,6 +275,12 @@ where
                     return Outcome::fail(json!({"lib": got, "ref": rv}), "validity differs from the independent implementation");
                 }
                 o.extra += 1;
+                // the same header through the trait-level entry point
+                let tv = bool::from(<C as BlsSignCrypt>::valid(c.u, &c.v, c.w, dst_of::<C>(c.scheme)));
+                if tv != want {
+                    return Outcome::fail(json!({"path": "trait", "trait": tv, "struct": got}), format!("spec predicts valid={want}, the trait-level BlsSignCrypt::valid says {tv}"));
+                }
+                o.extra += 1;
             }
             o
         }
@@ -297,6 +303,12 @@ where
                 let crafted = geta(&v["ct"], "ops").iter().any(|o| gets(o, "op") == "CraftFrame");
                 if rexp != bytes && !crafted {
                     return Outcome::fail(json!({"lib": got}), "decryption result differs from the independent implementation");
+                }
+                o.extra += 1;
+                // the same opening through the trait-level entry point: same bytes
+                let (tgot, tbytes) = classify(<C as BlsSignCrypt>::unseal(c.u, &c.v, c.w, &sk2.0, dst_of::<C>(c.scheme)), &b.msg);
+                if !class_ok(want, tgot) || (tbytes != bytes && !crafted) {
+                    return Outcome::fail(json!({"path": "trait", "trait": tgot, "struct": got}), format!("spec predicts {want}, the trait-level BlsSignCrypt::unseal returned {tgot} (struct-level: {got})"));
                 }
                 o.extra += 1;
             }
@@ -337,7 +349,19 @@ where
                     return Outcome::fail(json!({"res": got, "scheme": gets(&v["ct"], "scheme0"), "i": i, "j": j, "which": gets(v, "which")}),
                         format!("spec predicts {want} for share verification, library returned {got}"));
                 }
-                return Outcome::pass(json!({"res": got}));
+                let mut o = Outcome::pass(json!({"res": got}));
+                // the same check through the trait-level entry point, on the decoded points
+                {
+                    use blsful::vsss_rs::Share;
+                    if let (Ok(sp), Ok(kp)) = (ds.0.as_group_element::<<C as Pairing>::PublicKey>(), pks.0.as_group_element::<<C as Pairing>::PublicKey>()) {
+                        let tv = bool::from(<C as BlsSignCrypt>::verify_share(sp, kp, target.u, &target.v, target.w, dst_of::<C>(target.scheme)));
+                        if tv != (want == "Ok") {
+                            return Outcome::fail(json!({"path": "trait", "trait": tv, "struct": got}), format!("spec predicts {want} for share verification, the trait-level BlsSignCrypt::verify_share says {tv}"));
+                        }
+                        o.extra += 1;
+                    }
+                }
+                return o;
             }
             let entries = geta(v, "entries");
             let mut shares: Vec<SignDecryptionShare<C>> = vec![];
